@@ -28,7 +28,7 @@ COMPONENTS = {"real": ["ECAgent.Batching.batch_run", "_run_model_for_batch", "_b
                        "multiprocessing.Pool (real-pool arm only, schedule not controlled)"],
               "stub": ["multiprocessing.Pool -> simkit.simpool.SimPool (discrete-event pool, pickle boundary kept)",
                        "models/systems/collectors are harness workloads (props/workloads.py)"]}
-PROBES = ["requested_collector_missing_in_some_executions", "single_value_declared_after_a_collection", "failure_right_after_complete", "executions_running_batches_of_their_own", "collectors_rebinding_their_records", "collectors_falsy_while_empty", "parameter_named_like_a_batching_argument", "error_surfaced_while_other_workers_busy", "completion_reordered", "all_results_from_one_worker", "tie_in_finish_times", "fail_first", "fail_last",
+PROBES = ["requested_collectors_are_buffering_file_collectors", "requested_collector_missing_in_some_executions", "single_value_declared_after_a_collection", "failure_right_after_complete", "executions_running_batches_of_their_own", "collectors_rebinding_their_records", "collectors_falsy_while_empty", "parameter_named_like_a_batching_argument", "error_surfaced_while_other_workers_busy", "completion_reordered", "all_results_from_one_worker", "tie_in_finish_times", "fail_first", "fail_last",
           "max_ts_at_completion", "max_ts_below_completion", "max_ts_zero", "reps_single_combination",
           "collectors_none", "collectors_empty_list", "collectors_invalid", "parameterlist_input", "serial_order_checked",
           "second_batch_same_process", "parameterlist_reused_edit_returned", "parameterlist_reused_grid_search_first", "sibling_parameterlist_edited",
@@ -174,7 +174,7 @@ def generate(rng, tier):
     return {"nested_batches": rng.random() < 0.1, "falsy_collectors": rng.random() < 0.15, "rebinding_collectors": rng.random() < 0.12, "sibling": rng.random() < 0.15, "shadow_timestep": rng.choice([None, None, None, None, 0.25, 2.0, 7]),
             "prebuild": prebuild, "second": second, "grid": grid, "via": rng.choice(["dict", "plist"]), "reps": reps, "max_ts": max_ts, "collectors": coll,
             "processes": procs, "base_stop": base_stop, "spread": spread, "pool": pool,
-            "fail": fail,
+            "fail": fail, "file_collectors": rng.random() < 0.1,
             # some models of the grid do not have one of the collectors (a parameter decides what a model registers): asking a
             # batch for records that an execution cannot supply is an error of that execution
             "lacking": {"name": rng.choice(["col0", "col1", "col2"]), "mod": rng.choice([1, 2, 2, 3]), "rem": rng.randrange(3)}
@@ -291,7 +291,9 @@ def one_batch(ctx, sc, fail, label):
     W.reset({"base_stop": sc["base_stop"], "spread": sc["spread"], "fail": fail, "collectors_defined": COLLECTORS,
              "shadow_timestep": sc.get("shadow_timestep"), "falsy_collectors": sc.get("falsy_collectors"),
              "rebinding_collectors": sc.get("rebinding_collectors"), "nested_batches": sc.get("nested_batches"),
-             "lacking": sc.get("lacking") if fail is None else None})
+             "lacking": sc.get("lacking") if fail is None else None, "file_collectors": sc.get("file_collectors")})
+    if sc.get("file_collectors"):
+        ctx.probe("requested_collectors_are_buffering_file_collectors")
     if sc.get("nested_batches"):
         ctx.probe("executions_running_batches_of_their_own")
     if sc.get("rebinding_collectors"):
